@@ -114,6 +114,14 @@ Init ==
           /\ types \in {t \in [1..m -> {"f", "1", "2", "3"}] : \A i \in 1..m : t[i] \in TypeSet(parents[i])}
      \* bigger forests: levels with several parents that have different numbers of children (parent maps with repeats
      \* and gaps), which small forests cannot contain
+     \* wide two-level forests: r roots, root p with cnt[p] in 0..2 children (all count vectors): parent maps that are sorted
+     \* with repeats AND gaps, e.g. <<0, 0, 2>> (span = length, yet not contiguous)
+     \/ \E r \in 2..4 : \E cnt \in [1..r -> 0..2] :
+          LET RECURSIVE Kids(_) Kids(p) == IF p = 0 THEN <<>> ELSE Kids(p - 1) \o [j \in 1..cnt[p] |-> p]
+              ps == [i \in 1..r |-> 0] \o Kids(r)
+          IN  /\ Len(ps) > r
+              /\ parents = ps
+              /\ types = [i \in 1..Len(ps) |-> IF i % 3 = 0 THEN "2" ELSE "1"]
      \/ \E k \in 1..NBig :
           LET g == GenV(SeedBase + k, 2 * BigLinks, 97) IN
           /\ parents = [i \in 1..BigLinks |-> IF i = 1 THEN 0 ELSE IF g[i] % 5 = 0 THEN 0 ELSE (g[i] % (i - 1)) + 1]
